@@ -100,6 +100,8 @@ pub open spec fn all_integer(v: Seq<BaseValue>) -> bool { forall|i: int| 0 <= i 
 pub open spec fn first_diff(a: Seq<BaseValue>, b: Seq<BaseValue>, i: int) -> bool {
     ival(a[i]) != ival(b[i]) && forall|j: int| 0 <= j < i ==> ival(#[trigger] a[j]) == ival(b[j])
 }
+/// `zip` stops at the shorter vector
+pub open spec fn common_len(a: Seq<BaseValue>, b: Seq<BaseValue>) -> int { if a.len() <= b.len() { a.len() as int } else { b.len() as int } }
 /// `r` is the lexicographic comparison of the first `m` entries: Equal iff they agree, otherwise the first
 /// differing position decides
 pub open spec fn lex_upto(a: Seq<BaseValue>, b: Seq<BaseValue>, m: int, r: core::cmp::Ordering) -> bool {
